@@ -15,7 +15,9 @@ from .c13 import full_cert, PROFILE, WITHPROF
 from .common import read_ndjson, load_json, write_ndjson
 
 OIDS_BAD = {"oid arc >= 2^31": "1.2.2147483648", "oid arc >= 2^63": "1.2.9223372036854775808", "oid arc 40 digits": "1.2." + "9" * 40,
-            "oid first arc 3": "3.1.2", "oid single arc": "1", "oid second arc 40": "1.40.1"}
+            "oid first arc 3": "3.1.2", "oid single arc": "1", "oid second arc 40": "1.40.1",
+            # 40 * first arc + second arc is what gets encoded: it must fit as well
+            "oid first two arcs overflow": "2.9223372036854775807.1"}
 INTS_BAD = {"integer >= 2^63": 2 ** 63, "integer 10^30": 10 ** 30, "integer <= -2^63": -2 ** 63 - 1, "integer -1": -1, "integer 0": 0, "integer 2^31": 2 ** 31}
 DATES_BAD = {"date month 00": "2020-00-10", "date month 13": "2020-13-10", "date day 00": "2020-01-00", "date day 32": "2020-01-32", "date day 39": "2020-02-39",
              "date year 0000": "0000-01-01", "date year 9999": "9999-12-31", "date feb 30": "2021-02-30"}
@@ -60,6 +62,8 @@ def classes_for(path, val):
         out.update(B64_BAD)
     if key == "name" and isinstance(val, str) and val[:1].isdigit():
         out.update(IP_BAD)
+    if key == "serialNumber":
+        out["serial negative"] = -5
     if key == "subject":
         out.update({"subject huge arc": "1.2.99999999999999999999999=x", "subject no value": "CN=", "subject no key": "=x", "subject two equals": "CN=a=b",
                     "subject hash value": "CN=#zz", "subject hash hex": "CN=#0c0141", "subject hash empty hex": "CN=#"})
@@ -91,7 +95,7 @@ def cases(ctx):
         cl = classes_for(path, val)
         keys = list(cl)
         if ctx.quick:
-            must = [k for k in keys if k in OIDS_BAD or k in INTS_BAD or k in DATES_BAD or k in DUR_BAD or k in B64_BAD or k in IP_BAD or k.startswith("subject")]
+            must = [k for k in keys if k in OIDS_BAD or k in INTS_BAD or k in DATES_BAD or k in DUR_BAD or k in B64_BAD or k in IP_BAD or k.startswith("subject") or k.startswith("serial")]
             keys = must + r.sample([k for k in keys if k not in must], 2)
         for k in keys:
             c = copy.deepcopy(base)
